@@ -42,6 +42,9 @@ type Step struct {
 	MemLoads []MemAccess
 	// MemStores contains a list of memory stores.
 	MemStores []MemAccess
+
+	// err is the first reason why the step cannot be evaluated.
+	err error
 }
 
 func newStep(numEffects int) *Step {
